@@ -7,7 +7,7 @@
 //! substream, so the network may reorder RPCs of one link (`fifo = false`).
 //!
 //! Schedule: {"n":N,"t":T,"slm":[bool;N],"fifo":bool,"ops":[op..]}; op = {"a":name, ..}:
-//!   conn x y | disc x y | view x y | unview x y | sub x t | unsub x t | pub x ts any | dlv x y i | inj x y ts like
+//!   conn x y | disc x y | view x y | unview x y | sub x t | unsub x t | pub x ts any | dlv x y i | inj x y ts like | injraw x y t
 //!   flush  (deliver head-of-line RPCs round-robin until every link is empty)
 //! Events (one per op, `e` = op name) carry what the op caused at ANY node:
 //!   snd   [{"f":from,"t":to,"s":[[topic,1|0]..],"m":[k..]}..]   RPCs queued, in queue order
@@ -96,6 +96,26 @@ fn wire(rpc: FloodsubRpc) -> Result<FloodsubRpc, String> {
         }
     }
     Err("codec stalled".into())
+}
+
+/// Raw bytes through the real inbound upgrade.
+fn decode_raw(bytes: &[u8]) -> Result<FloodsubRpc, String> {
+    use futures::AsyncWriteExt;
+    let (mut a, b, _ctl) = pipe(true);
+    let det = Det::new();
+    let info = FloodsubProtocol::new().protocol_info().next().expect("one protocol name");
+    {
+        let mut w = Box::pin(async {
+            a.write_all(bytes).await?;
+            a.close().await
+        });
+        det.run_until_stalled(w.as_mut(), 1000).ok_or("write stalled")?.map_err(|e| e.to_string())?;
+    }
+    let mut inp = FloodsubProtocol::new().upgrade_inbound(b, info);
+    match det.run_until_stalled(inp.as_mut(), 1000) {
+        Some(r) => r.map_err(|e| format!("decode: {e}")),
+        None => Err("decode stalled".into()),
+    }
 }
 
 impl Net {
@@ -324,6 +344,31 @@ impl Net {
                 self.links.entry((x, y)).or_default().push_back(FloodsubRpc { messages: vec![msg], subscriptions: Vec::<FloodsubSubscription>::new() });
                 json!({"e": "inj", "x": x, "y": y, "k": k, "ts": ts, "src": src, "like": like})
             }
+            // a foreign implementation's announcement that omits the optional `subscribe` flag (protobuf default:
+            // false = unsubscribe) arrives on x -> y: hand-made wire bytes through the real decoder
+            "injraw" => {
+                if !self.connected(x, y) {
+                    return vec![json!({"e": "skip", "why": "injraw"})];
+                }
+                let name = format!("t{t}").into_bytes();
+                let mut sub = vec![0x12, name.len() as u8];
+                sub.extend(&name);
+                let mut rpc = vec![0x0a, sub.len() as u8];
+                rpc.extend(&sub);
+                let mut frame = vec![rpc.len() as u8];
+                frame.extend(&rpc);
+                let mut ev = json!({"e": "injraw", "x": x, "y": y, "t": t});
+                match decode_raw(&frame) {
+                    Ok(dec) => {
+                        let j = self.rpc_json(x, y, &dec);
+                        ev["dec"] = j["s"].clone();
+                        ev["nm"] = json!(dec.messages.len());
+                        self.links.entry((x, y)).or_default().push_back(dec);
+                    }
+                    Err(e) => ev["codec"] = json!(e),
+                }
+                ev
+            }
             "flush" => {
                 let mut out = vec![];
                 for _ in 0..20_000 {
@@ -430,7 +475,8 @@ fn gen_random(rng: &mut rand::rngs::StdRng) -> Value {
             33..=49 => json!({"a": "pub", "x": x, "ts": ts_of(rng), "any": rng.gen_bool(0.35)}),
             50..=52 => json!({"a": "disc", "x": x, "y": y}),
             53..=54 => json!({"a": "unview", "x": x, "y": y}),
-            55..=57 => json!({"a": "inj", "x": x, "y": y, "ts": ts_of(rng), "like": if rng.gen_bool(0.5) && net.nextk > 0 { rng.gen_range(0..net.nextk) } else { -1 }}),
+            55 => json!({"a": "injraw", "x": x, "y": y, "t": tt}),
+            56..=57 => json!({"a": "inj", "x": x, "y": y, "ts": ts_of(rng), "like": if rng.gen_bool(0.5) && net.nextk > 0 { rng.gen_range(0..net.nextk) } else { -1 }}),
             _ => {
                 if let Some(&(a, b, l)) = busy.choose(rng) {
                     json!({"a": "dlv", "x": a, "y": b, "i": if fifo || rng.gen_bool(0.5) { 0 } else { rng.gen_range(0..l) }})
@@ -494,6 +540,10 @@ fn directed() -> Vec<Value> {
             {"a":"view","x":0,"y":1},{"a":"view","x":1,"y":0},{"a":"sub","x":0,"t":0},{"a":"sub","x":1,"t":0},
             {"a":"conn","x":0,"y":1},{"a":"conn","x":1,"y":0},{"a":"flush"},{"a":"disc","x":0,"y":1},{"a":"pub","x":0,"ts":[0],"any":false},{"a":"flush"},
             {"a":"disc","x":0,"y":1},{"a":"pub","x":0,"ts":[0],"any":false},{"a":"conn","x":0,"y":1},{"a":"pub","x":0,"ts":[0],"any":false},{"a":"flush"},{"a":"pub","x":1,"ts":[0],"any":false}]}));
+        // an announcement without the optional subscribe flag means unsubscribe
+        v.push(json!({"n": 2, "t": 2, "slm": [slm, slm], "fifo": true, "ops": [
+            {"a":"conn","x":0,"y":1},{"a":"view","x":0,"y":1},{"a":"view","x":1,"y":0},{"a":"sub","x":0,"t":0},{"a":"sub","x":1,"t":0},{"a":"sub","x":1,"t":1},{"a":"flush"},
+            {"a":"injraw","x":1,"y":0,"t":0},{"a":"flush"},{"a":"pub","x":0,"ts":[0],"any":false},{"a":"pub","x":0,"ts":[0,1],"any":true},{"a":"flush"}]}));
         // forged look-alike (same source and sequence number, other data) and a message from an unknown source
         v.push(tri(vec![json!({"a":"sub","x":0,"t":0}), json!({"a":"sub","x":1,"t":0}), json!({"a":"sub","x":2,"t":0}), json!({"a":"flush"}),
                         json!({"a":"pub","x":0,"ts":[0],"any":false}), json!({"a":"flush"}), json!({"a":"inj","x":1,"y":2,"ts":[0],"like":0}), json!({"a":"inj","x":1,"y":0,"ts":[0],"like":0}), json!({"a":"inj","x":2,"y":0,"ts":[0,1],"like":-1})], slm, true));
